@@ -25,7 +25,7 @@ IDENT = re.compile(r"[A-Za-z0-9_-]+\Z")
 DEP = re.compile(r"(:[A-Za-z0-9_-]+|//([A-Za-z0-9_-]+/)*([A-Za-z0-9_-]+)?:[A-Za-z0-9_-]+)\Z")
 PRIM = (str, bool, int, float)
 
-POOL = ["ok-name", "bad name", "x\n", "", 3, 2.5, True, None, ["s"], ["s", 3], [], {"k": 1}, {1: "v"}, {"k": [1]}, {}, ("t",),
+POOL = ["ok-name", "bad name", "x\n", "na{me}", ["//:gen-{size}"], [":{0}"], "", 3, 2.5, True, None, ["s"], ["s", 3], [], {"k": 1}, {1: "v"}, {"k": [1]}, {}, ("t",),
         [":dep"], ["//:dep", ":dep2"], [":dep", "//:dep"], [":missing"], ["not an id"], [None], [[1]], {"k": None}]
 
 SCHEMAS = {
@@ -111,8 +111,21 @@ INCLUDES = [
     ("included file raises", "include('a.cond')\nrun_command(name='x', run='true')\n", {"a.cond": "raise ValueError('boom')\n"}, False),
     ("included file has a syntax error", "include('a.cond')\nrun_command(name='x', run='true')\n", {"a.cond": "def (:\n"}, False),
     ("include with a non-string", "include(3)\nrun_command(name='x', run='true')\n", {}, False),
+    # the same include string used by two COND files of one command: each resolves against its own directory
+    ("same relative include in two packages, both exist",
+     "include('common.cond')\nrun_command(name='x', run=CMD, deps=['//sub:y'])\n",
+     {"common.cond": "CMD = 'true'\n", "sub/common.cond": "CMD = 'false'\n", "sub/COND": "include('common.cond')\nrun_command(name='y', run=CMD)\n"}, True),
+    ("same relative include in two packages, missing in the dependency's package",
+     "include('common.cond')\nrun_command(name='x', run=CMD, deps=['//sub:y'])\n",
+     {"common.cond": "CMD = 'true'\n", "sub/COND": "include('common.cond')\nrun_command(name='y', run='true')\n"}, False),
+    ("same relative include in two packages, the dependency's copy raises",
+     "include('common.cond')\nrun_command(name='x', run=CMD, deps=['//sub:y'])\n",
+     {"common.cond": "CMD = 'true'\n", "sub/common.cond": "raise ValueError('bad')\n", "sub/COND": "include('common.cond')\nrun_command(name='y', run='true')\n"}, False),
+    ("same relative include in two packages, the dependency's copy defines a task",
+     "include('common.cond')\nrun_command(name='x', run=CMD, deps=['//sub:y'])\n",
+     {"common.cond": "CMD = 'true'\n", "sub/common.cond": "run_command(name='z', run='true')\n", "sub/COND": "include('common.cond')\nrun_command(name='y', run='true')\n"}, False),
 ]
-RAISES = ["raise ValueError('boom')", "raise KeyError('k')", "1/0", "assert False, 'no'", "raise RuntimeError()", "import nonexistent_module_zz",
+RAISES = ["raise ValueError('{boom}')", "int('{')", "raise KeyError('{0}')", "raise ValueError('boom')", "raise KeyError('k')", "1/0", "assert False, 'no'", "raise RuntimeError()", "import nonexistent_module_zz",
           "undefined_variable + 1", "def broken(:", "class E(Exception): pass\nraise E('custom')", "raise OSError(2, 'nope')", "[][1]",
           "raise StopIteration", "raise LookupError", "int('x')", "{}.missing", "raise NotImplementedError", "raise UnicodeError",
           "open('/nonexistent/file')", "raise MemoryError", "raise RecursionError"]
